@@ -178,7 +178,7 @@ def zero_value(ret):
     return {"string": '""', "int": "0", "bool": "false"}.get(ret, ret + "{}")
 
 
-def render_method(c, m, types_pkg):
+def render_method(c, m, types_pkg, method_body=None):
     lines = []
     if m["descr"]:
         lines.append("// " + m["descr"])
@@ -223,12 +223,15 @@ def render_method(c, m, types_pkg):
         rets = "error"
         body = "return nil"
     lines.append("func (c *%s) %s(%s) %s {" % (c["name"], m["name"], sig, rets))
-    lines.append("\t" + body)
+    if method_body:
+        lines += ["\t" + l for l in method_body(c, m, qual)]
+    else:
+        lines.append("\t" + body)
     lines.append("}")
     return "\n".join(lines)
 
 
-def render_project(p, root, modpath):
+def render_project(p, root, modpath, method_body=None, extra_imports=None):
     """Writes the Go sources of the abstract project under root (a package directory tree inside the
     scratch module whose import path for root is modpath).  Returns nothing."""
     shutil.rmtree(root, ignore_errors=True)
@@ -258,7 +261,7 @@ def render_project(p, root, modpath):
             files.setdefault(key, []).append("\n".join(lines))
             for m in c["methods"]:
                 mk = "%s_%d.go" % (c["name"].lower(), m["file"])
-                files.setdefault(mk, []).append(render_method(c, m, "types"))
+                files.setdefault(mk, []).append(render_method(c, m, "types", method_body))
         for fn, chunks in files.items():
             src = "\n\n".join(chunks)
             imports = []
@@ -268,6 +271,9 @@ def render_project(p, root, modpath):
                 imports.append('"context"')
             if "types." in src:
                 imports.append('"%s/types"' % modpath)
+            for imp, marker in (extra_imports or []):
+                if marker in src:
+                    imports.append(imp)
             with open(os.path.join(d, fn), "w") as f:
                 f.write("package %s\n\nimport (\n%s\n)\n\n%s\n" % (pkg, "\n".join("\t" + i for i in imports), src))
 
